@@ -205,13 +205,18 @@ class IOShim:
 
 class TextStream:
     """io.TextIOWrapper (UTF-8, strict) over a binary stream, as documented and as CPython implements it: the
-    bytes are decoded a CHUNK at a time (8192 bytes - more than any stream of this harness), so read(1) already
-    raises UnicodeDecodeError when an undecodable byte lies anywhere in the rest of the stream; the underlying
-    binary stream is available as .buffer and follows seek()"""
+    bytes are decoded a CHUNK at a time (8192 bytes in CPython - more than any stream of this harness - unless an
+    obligation sets a small chunk to get several of them), so read(1) already raises UnicodeDecodeError when an
+    undecodable byte lies anywhere in the chunk being decoded; the underlying binary stream is available as
+    .buffer: it stands at the END of the last chunk read (read-ahead), tell() is the logical position, seek()
+    repositions both"""
     CHUNK = 8192
 
-    def __init__(self, data, fail):
+    def __init__(self, data, fail, chunk=None):
         self.data, self.pos, self.fail = data, 0, fail
+        self.upto = 0                     # bytes [0, upto) have been taken from the buffer and decoded
+        if chunk:
+            self.CHUNK = chunk
         self.buffer = BinStream(data)
 
     def readable(self):
@@ -222,26 +227,33 @@ class TextStream:
 
     def seek(self, p):
         self.pos = p
+        self.upto = p
         self.buffer.pos = p
+
+    def _fill(self):
+        nxt = min(len(self.data), self.upto + self.CHUNK)
+        self.buffer.pos = nxt
+        for b in self.data[self.upto:nxt]:
+            if not bool(b < 128):
+                raise UnicodeDecodeError("utf-8", b"\xff", 0, 1, "invalid start byte")
+        self.upto = nxt
 
     def read(self, n=-1):
         from .. import cmodels
         if n == 1:
             if self.pos >= len(self.data):
                 return ""
-            for b in self.data[self.pos:self.pos + self.CHUNK]:
-                if not bool(b < 128):
-                    raise UnicodeDecodeError("utf-8", b"\xff", 0, 1, "invalid start byte")
+            if self.pos >= self.upto:
+                self._fill()
             b = self.data[self.pos]
             self.pos += 1
-            self.buffer.pos = min(len(self.data), self.pos + self.CHUNK)
             return chr(b) if isinstance(b, int) else cmodels.sym_chr(b)
         rest = self.data[self.pos:]
         self.buffer.pos = len(self.data)
-        for b in rest:
+        for b in self.data[self.upto:]:
             if not bool(b < 128):
                 raise UnicodeDecodeError("utf-8", b"\x80", 0, 1, "invalid start byte")
-        self.pos = len(self.data)
+        self.pos = self.upto = len(self.data)
         out = ""
         for b in rest:
             out = out + (chr(b) if isinstance(b, int) else cmodels.sym_chr(b))
@@ -259,7 +271,9 @@ class Streams(Harness):
         return "entry %s, label %s%s followed by %d symbolic bytes (0-255)%s" % (
             self.entry, self.label, " whose END has no line end after it" if getattr(self, "fused", False) else "",
             self.n, (", stream positioned after a header of %d symbolic bytes" % self.offset)
-            if getattr(self, "offset", 0) else "")
+            if getattr(self, "offset", 0) else "") + (
+                " which the caller has read through the text layer (chunks of 4 bytes: the buffer has read ahead)"
+                if getattr(self, "readhdr", False) else "")
 
     def inputs(self, ctx):
         tail = [SymInt(ctx.fresh_int("b%d" % i, 0, 255)) for i in range(self.n)]
@@ -272,6 +286,9 @@ class Streams(Harness):
         inp = {"tail": tail}
         if getattr(self, "offset", 0):
             inp["header"] = [SymInt(ctx.fresh_int("h%d" % i, 0, 255)) for i in range(self.offset)]
+            if getattr(self, "readhdr", False):
+                for b in inp["header"]:
+                    ctx.assume(b.z < 128)
         return inp
 
     def prop_fn(self, L, inp):
@@ -293,8 +310,22 @@ class Streams(Harness):
         if off:
             # the caller has already read (or skipped) a header of *off* arbitrary bytes: the stream stands at the label
             header = list(inp["header"])
+            if getattr(self, "readhdr", False):
+                try:
+                    probe = TextStream(header + data, False, chunk=4)
+                    for _ in range(off):
+                        probe.read(1)
+                except UnicodeDecodeError:
+                    return Outcome("agree", True, {"note": "the caller's own read of the header fails"})
 
             def positioned(stream_cls, *a):
+                if getattr(self, "readhdr", False) and stream_cls is TextStream:
+                    # the caller READ the header through the text layer, which decodes small chunks here: the
+                    # buffer underneath has run ahead of the logical position
+                    st = stream_cls(header + data, *a, chunk=4)
+                    for _ in range(off):
+                        st.read(1)
+                    return st
                 st = stream_cls(header + data, *a)
                 st.seek(off)
                 return st
@@ -461,6 +492,9 @@ def obligations(tier):
     for entry in ("get_text_binary", "get_text_text", "load_binary", "load_text"):
         for n in ((0, 2) if quick else (0, 1, 3)):
             obs.append(Streams(entry=entry, label="flat", n=n, offset=3))
+    for entry in ("get_text_text", "load_text"):
+        for n in ((0, 2) if quick else (0, 1, 2, 3)):
+            obs.append(Streams(entry=entry, label="flat", n=n, offset=3, readhdr=True))
     for entry in ("decode_by_char", "get_text_binary", "get_text_text", "load_binary", "load_text", "loads_bytes"):
         for n in ((0, 1, 3) if quick else (0, 1, 2, 3, 4, 6)):
             obs.append(Streams(entry=entry, label="flat", n=n))
